@@ -72,10 +72,9 @@ pub fn deserialize_eps_zero<'a, T: ZeroCopy>(
 ) -> deser::Result<&'a T> {
     let bytes = core::mem::size_of::<T>();
     if bytes == 0 {
-        // SAFETY: T is zero-sized and `assume_init` is safe.
-        #[allow(invalid_value)]
-        #[allow(clippy::uninit_assumed_init)]
-        return Ok(unsafe { MaybeUninit::uninit().assume_init() });
+        // SAFETY: zero-sized types are not deserialized, and any non-null,
+        // aligned pointer is a valid reference to a zero-sized type.
+        return Ok(unsafe { core::ptr::NonNull::<T>::dangling().as_ref() });
     }
     backend.align::<T>()?;
     let (pre, data, after) = unsafe { backend.data[..bytes].align_to::<T>() };
@@ -94,6 +93,13 @@ pub fn deserialize_eps_slice_zero<'a, T: ZeroCopy>(
     let len = usize::_deserialize_full_inner(backend)?;
     let bytes = len * core::mem::size_of::<T>();
     backend.align::<T>()?;
+    if core::mem::size_of::<T>() == 0 {
+        // SAFETY: align_to cannot split bytes into zero-sized items; a slice
+        // of zero-sized items is valid at any non-null, aligned address.
+        return Ok(unsafe {
+            core::slice::from_raw_parts(core::ptr::NonNull::<T>::dangling().as_ptr(), len)
+        });
+    }
     let (pre, data, after) = unsafe { backend.data[..bytes].align_to::<T>() };
     debug_assert!(pre.is_empty());
     debug_assert!(after.is_empty());
